@@ -390,6 +390,17 @@ def h_r1(p: Project, rep: Report):
             if len(ads) == 1 and len(defs.get(arg.id, [])) == 1 and isinstance(ads[0].value, ast.BinOp):
                 arg = ads[0].value
         names = [x for x in (arg.left, arg.right)] if isinstance(arg, ast.BinOp) and isinstance(arg.op, ast.Add) else []
+        # relative form: seek(<match end> - len(<R>), SEEK_CUR) backs up from the current position; equivalent to the
+        # absolute form exactly when R has one character per byte consumed since the header began
+        whence = c.args[1] if len(c.args) > 1 else next((k.value for k in c.keywords if k.arg == "whence"), None)
+        relative = whence is not None and (text(whence) in ("1", "os.SEEK_CUR", "io.SEEK_CUR", "SEEK_CUR"))
+        rel_len_of = None
+        if relative and isinstance(arg, ast.BinOp) and isinstance(arg.op, ast.Sub) and isinstance(arg.right, ast.Call) and text(arg.right.func) == "len" and len(arg.right.args) == 1:
+            names = [arg.left]
+            rel_len_of = arg.right.args[0]
+        elif relative:
+            rep.note(f"H-R1 undecided: the source is repositioned relatively by {text(arg)[:60]}")
+            continue
         if not names and not isinstance(arg, (ast.Name, ast.Constant)):
             rep.note(f"H-R1 undecided: the source is repositioned to {text(arg)[:60]}")
             continue
@@ -401,8 +412,15 @@ def h_r1(p: Project, rep: Report):
                     start_n = x.id
                 elif any(d.kind == "unpack" and d.index == 1 and isinstance(d.value, ast.Call) and text(d.value.func) == "OFXHeaderV1.parse" for d in ds):
                     off_n = x.id
-        if off_n is not None and start_n is None and any(isinstance(x, ast.Name) and any(d.kind == "unpack" or (d.kind == "assign" and isinstance(d.value, ast.Call) and "tell" not in text(d.value)) for d in defs.get(x.id, [])) for x in names):
+        if rel_len_of is None and off_n is not None and start_n is None and any(isinstance(x, ast.Name) and any(d.kind == "unpack" or (d.kind == "assign" and isinstance(d.value, ast.Call) and "tell" not in text(d.value)) for d in defs.get(x.id, [])) for x in names):
             raise AnalysisError("H-R1: the start position is computed by a helper that could not be inlined")
+        if rel_len_of is not None and off_n is not None:
+            pd_ = [d for d in defs[off_n] if d.kind == "unpack"][0]
+            if text(pd_.value.args[0]) == text(rel_len_of):
+                start_n = "<current position - len(R)>"
+            else:
+                rep.check("H-R1", "parse_header:seek(header_start+offset)", False, f"the source is moved back by len({text(rel_len_of)}), which is not the text the header was matched in ({text(pd_.value.args[0])})", hloc(p, c))
+                continue
         ok = start_n is not None and off_n is not None
         rep.check("H-R1", "parse_header:seek(header_start+offset)", ok, f"the source is repositioned to {text(arg)}; expected <position before the first header line> + <match end of OFXHeaderV1.parse(raw header)>" if not ok else "", hloc(p, c))
         if not ok:
@@ -429,6 +447,8 @@ def h_r1(p: Project, rep: Report):
                 rep.note(f"H-R1 undecided: raw header built as {hx.t(R)[:80]}")
             else:
                 rep.check("H-R1", "parse_header:rawheader-starts-with-first-line-as-read", r_, f"the raw header is {hx.t(R)[:80]}: it differs from the bytes consumed since the start position (inserted, stripped or re-encoded characters shift the seek offset)" if not r_ else "", hloc(p, c))
+        if rel_len_of is not None:
+            continue
         # the start position is taken immediately before the first line is read
         hs = [d.stmt for d in defs.get(start_n, []) if d.kind == "assign"]
         good = bool(hs)
